@@ -24,7 +24,16 @@ func mixedDocset(r *Rand, kind string) eCase {
 	for i := range c.Queries {
 		c.Queries[i].Debug = false
 		if r.Chance(60) {
-			c.Queries[i].A = setAssign(setAssign(c.Queries[i].A, 6, tvStr(pick(r, words)+" "+pick(r, words))), 7, tvInt("int", r.I64(-5, 60)))
+			var text TV
+			switch r.Intn(3) {
+			case 0:
+				text = tvStr(pick(r, words) + " " + pick(r, words))
+			case 1: // the shape a JSON-decoded query has
+				text = tvList(tvStr(pick(r, words)), tvStr(pick(r, words)))
+			default:
+				text = tvSlice("[]string", tvStr(pick(r, words)), tvStr("x"), tvStr(pick(r, words)))
+			}
+			c.Queries[i].A = setAssign(setAssign(c.Queries[i].A, 6, text), 7, tvInt("int", r.I64(-5, 60)))
 		}
 	}
 	return c
